@@ -253,3 +253,14 @@ def replay(ctx, payload):
     print("\n".join(f["input"]["ops"]))
     print("->", impl[0], crashes)
     return 1
+
+
+# per-run SVD factorisation certificate (tools/props/svd_cert.py): the one place where a numeric check
+# stands in for a missing universal theorem (convergence/accuracy of the Golub-Reinsch iteration)
+from props import svd_cert  # noqa: E402
+_correspond_without_cert = correspond
+
+
+def correspond(ctx, corr):  # noqa: F811
+    _correspond_without_cert(ctx, corr)
+    svd_cert.check_certificates(ctx, corr)
